@@ -192,6 +192,13 @@ func energyValueRule(c *an.Ctx, fn *ssa.Function) {
 			okTS = col0.K == an.KLoad && col0.A[0].K == an.KIA && isConstTerm(col0.A[0].A[1], "0") && sameRow(col0, reading)
 		}
 	}
+	// the reading is the SECOND column of the row
+	okCol := false
+	if reading.K == an.KExt && reading.S == "0" && len(reading.A[0].A) > 0 {
+		col1 := reading.A[0].A[0]
+		okCol = col1.K == an.KLoad && col1.A[0].K == an.KIA && isConstTerm(col1.A[0].A[1], "1")
+	}
+	c.Check(okCol, "PRED", fn, tsVal.Pos(), an.KeyOf(fn, "reading-column"), "the reading is parsed from the second column of the row (timestamp,reading)", "parsed text "+short(reading.Key()))
 	c.Check(okTS, "PRED", fn, tsVal.Pos(), an.KeyOf(fn, "timeslot"), "the record's timeslot is UnixToTimeslot(ParseInt(first column)) of the same row as the reading", "term "+short(tt.Key()))
 	// the append of the record is dominated by successful timestamp parse and conversion
 	for _, b := range fn.Blocks {
